@@ -16,6 +16,7 @@ import (
 
 	"verifharness/choose"
 	"verifharness/ev"
+	"verifharness/ref"
 )
 
 // C10 — the signature commits to exactly what is sent and stored.
@@ -544,4 +545,47 @@ func refCertIdentity(c *agglayertypes.Certificate) common.Hash {
 		h[7-i] = byte(c.Height >> (8 * i))
 	}
 	return crypto.Keccak256Hash(n, h, c.PrevLocalExitRoot.Bytes(), c.NewLocalExitRoot.Bytes(), crypto.Keccak256(eh), crypto.Keccak256(ih))
+}
+
+func cryptoSigToAddr(commit common.Hash, sig []byte) (common.Address, error) {
+	pub, err := crypto.SigToPub(commit.Bytes(), normSig(sig))
+	if err != nil {
+		return common.Address{}, err
+	}
+	return crypto.PubkeyToAddress(*pub), nil
+}
+
+func jsonUnmarshal(js string, v any) error { return json.Unmarshal([]byte(js), v) }
+
+// wireExitHashPB recomputes the exit leaf hash from the protobuf bridge exit.
+func wireExitHashPB(p *interop.BridgeExit) common.Hash {
+	lt := uint8(0)
+	if p.GetLeafType() == interop.LeafType_LEAF_TYPE_MESSAGE {
+		lt = 1
+	}
+	mh := common.BytesToHash(crypto.Keccak256(nil))
+	if p.GetMetadata() != nil && len(p.GetMetadata().GetValue()) > 0 {
+		mh = common.BytesToHash(p.GetMetadata().GetValue())
+	}
+	return ref.BridgeLeaf(lt, p.GetTokenInfo().GetOriginNetwork(), common.BytesToAddress(p.GetTokenInfo().GetOriginTokenAddress().GetValue()),
+		p.GetDestNetwork(), common.BytesToAddress(p.GetDestAddress().GetValue()), new(big.Int).SetBytes(p.GetAmount().GetValue()), mh)
+}
+
+// wireFEPCommitment recomputes the FEP commitment from the protobuf message.
+func wireFEPCommitment(sub submission) common.Hash {
+	p := sub.Wire
+	var chunks []byte
+	for _, ib := range p.GetImportedBridgeExits() {
+		chunks = append(chunks, le32(new(big.Int).SetBytes(ib.GetGlobalIndex().GetValue()))...)
+		chunks = append(chunks, wireExitHashPB(ib.GetBridgeExit()).Bytes()...)
+	}
+	h := make([]byte, 8)
+	for i := 0; i < 8; i++ {
+		h[i] = byte(p.GetHeight() >> (8 * i))
+	}
+	params := crypto.Keccak256(nil)
+	if g := p.GetAggchainData().GetGeneric(); g != nil {
+		params = g.GetAggchainParams().GetValue()
+	}
+	return crypto.Keccak256Hash(p.GetNewLocalExitRoot().GetValue(), crypto.Keccak256(chunks), h, params)
 }
